@@ -6,6 +6,7 @@ import (
 	"fmt"
 	"math/rand"
 	"os"
+	"sort"
 	"sync"
 	"sync/atomic"
 	"time"
@@ -52,11 +53,9 @@ func openLinzDB(dir string) *NoKV.DB {
 func genLinz(r *rand.Rand) linzDesc {
 	var d linzDesc
 	d.Throttle = r.Intn(3) == 0
+	// the brute-force checker runs inside Coq (vm_compute): keep histories at 12 operations
 	nthreads := 3 + r.Intn(2)
-	nops := 4 + r.Intn(3)
-	if nthreads*nops > 24 {
-		nops = 24 / nthreads
-	}
+	nops := 12 / nthreads
 	valc := 0
 	for t := 0; t < nthreads; t++ {
 		var p []linzOp
@@ -169,11 +168,15 @@ func execLinz(c *corr.Ctx, db *NoKV.DB, d linzDesc) corr.Case {
 	close(start)
 	wg.Wait()
 	close(stop)
-	var terms []string
+	// ordered by call stamp: the checker's depth-first search then tries the earliest call first
+	var all []rec
 	for _, rs := range recs {
-		for _, r := range rs {
-			terms = append(terms, r.term)
-		}
+		all = append(all, rs...)
+	}
+	sort.Slice(all, func(i, j int) bool { return all[i].call < all[j].call })
+	var terms []string
+	for _, r := range all {
+		terms = append(terms, r.term)
 	}
 	c.CountN("ops", len(terms))
 	c.CountN("write_ok", int(nok))
@@ -185,7 +188,7 @@ func execLinz(c *corr.Ctx, db *NoKV.DB, d linzDesc) corr.Case {
 func runLinz(c *corr.Ctx) error {
 	c.Meta("run_module", "RunLinz")
 	c.Meta("exhaustive", false)
-	c.Meta("rule", "3-4 goroutines x 4-6 operations (Set with unique values, Del, Get) on 2 fresh keys per history against one real DB "+
+	c.Meta("rule", "3 goroutines x 4 or 4 goroutines x 3 operations (Set with unique values, Del, Get) on 2 fresh keys per history against one real DB "+
 		"(commit worker batching on, WriteHotKeyLimit=6 so that repeated writes are rejected, 5000-byte values rejected by MaxBatchSize, "+
 		"a fifth goroutine toggling the L0 write throttle in a third of the histories); call/return stamped by a global atomic counter; "+
 		"the complete history must satisfy lin_check. non-trivial = at least one write succeeded; distinct by Gallina term")
